@@ -313,6 +313,20 @@ def rank_flow(ctx):
     kwname = 'rank' if fd else 'compression_rank'
     recs = [rc for rc in ev.calls if rc.callee.endswith('.' + name) and rc.args is not None]
     ok = bool(recs) and all(rc.args.get(kwname) is cr for rc in recs)
+    # every option of the special root is bound to the optimizer's own configuration value / the caller's argument
+    cfg_ = lambda nm: sym('cfg', F, nm)
+    par_ = lambda nm: sym('param', fi.short, nm)
+    want_opts = {'ridge_epsilon': cfg_('matrix_epsilon'), 'relative_matrix_epsilon': cfg_('relative_matrix_epsilon'),
+                 'padding_start': par_('padding_start'), 'prev': par_('prev')}
+    if fd:
+      want_opts.update({'decay': cfg_('beta2')})
+    for rc in recs:
+      for opt, want_t in want_opts.items():
+        got_t = rc.args.get(opt)
+        ctx.ob('C10.R2', fi.short, f'{name}({opt}=...) [fd={fd}]', got_t is want_t,
+               f'{name} must be configured with {opt}={show(want_t)}; got `{show(got_t, maxdepth=3) if got_t is not None else "<default>"}` '
+               '(a dropped option silently falls back to the callee\'s default, e.g. decay=1.0: the sketch is never discounted)', ctx.loc(fi),
+               sample=f'{opt}={show(want_t)}', trivial=True)
     ctx.ob('C10.R2', fi.short, f'{name}({kwname}=compression_rank) [fd={fd}]', ok,
            f'{name} must receive the configured (signed) compression_rank: a negative rank selects the smallest eigen-directions', ctx.loc(fi),
            sample=f'{name}({kwname}=compression_rank)')
